@@ -594,6 +594,18 @@ def discharge(premises, goal, timeout_ms=10000, hints=None, hint_arrays=None):
 
     state = {}
 
+    if seq and not info(neg).seq:
+        # the goal does not speak about byte-string structure: first try without the
+        # premises that do (fewer premises: sound), which keeps the sequence solver out
+        g2 = [c for c in ground if not info(c).seq]
+        q2 = [c for c in quant if not info(c).seq]
+        if len(g2) + len(q2) < len(ground) + len(quant):
+            r0 = discharge(g2 + q2, goal, min(timeout_ms, 6000), hints, hint_arrays)
+            if r0["status"] == "proved":
+                r0["time_s"] = time.time() - t0
+                r0["note"] = "without the byte-string premises"
+                return r0
+
     def stage_1():
         # explicit ground instances over the obligation's own terms (bounded)
         inst = instantiate(quant, ints, strs, cap=4000)
